@@ -292,6 +292,14 @@ pub fn run(args: &Args, out: &mut Out) {
             // compilation history: 0..50 other programs (mostly few, so the case stays cheap)
             let k = if rng.chance(1, 10) { 10 + rng.below(40) } else { rng.below(4) };
             let mut others = vec![];
+            // compilations that fail are history too: one whose macro-stage code panics, one that is rejected
+            let text_case = |src: String, origin: &str| Case { src, n: 1, input_seed: 1, finite_inputs: true, prog: None, expect: None, scheduler: false, path: None, origin: Some(origin.into()), split: None };
+            if rng.chance(1, 4) {
+                others.push(text_case(super::c19::macro_stage_program(true), "history:macro-stage-panic"));
+            }
+            if rng.chance(1, 4) {
+                others.push(text_case("#stage(macro)\nfn m(x){ `{ $x + undefined_name } }\n#stage(main)\nfn dsp(){ m!(`1.0) + \"s\" }\n".to_string(), "history:rejected"));
+            }
             for _ in 0..k {
                 if rng.chance(1, 2) && ncorpus > 0 {
                     if let Some(c) = mk_corpus(rng.below(ncorpus), rng) {
